@@ -34,6 +34,10 @@ class Tick:
     def __await__(self):
         yield None
 class Boom(Exception): pass
+class posprop(property):
+    """a sub-class of property whose constructor takes positional arguments only (no fget=/fset=/fdel=/doc= keywords)"""
+    def __init__(self, a=None, b=None, c=None, d=None, /):
+        super().__init__(a, b, c, d)
 '''
 
 MEMBERS = '''\
@@ -71,6 +75,16 @@ MEMBERS = '''\
     @p.deleter
     def p(self):
         LOG.append(("body", "p.del"))
+    @posprop
+    def pp(self):
+        LOG.append(("body", "pp.get"))
+        return 1
+    @pp.setter
+    def pp(self, value):
+        LOG.append(("body", "pp.set"))
+    @pp.deleter
+    def pp(self):
+        LOG.append(("body", "pp.del"))
     @classmethod
     def cm(cls):
         LOG.append(("body", "cm"))
@@ -157,6 +171,9 @@ def render(spec):
                      "        if boom:\n            LOG.append(('ctor_exit', 'Root'))\n            raise Boom()\n        LOG.append(('ctor_exit', 'Root'))\n")
         if style == "getattribute":
             w.append(GETATTRIBUTE)
+        if style == "own_delattr":
+            # a __delattr__ defined in Python: a special method like any other (checked with the CALL invariants)
+            w.append("    def __delattr__(self, name):\n        LOG.append(('body', '__delattr__'))\n        object.__delattr__(self, name)\n")
         w.append(MEMBERS)
     ch = spec["child"]
     if ch:
@@ -204,6 +221,10 @@ def render(spec):
             w.append("    def _cprot(self):\n        LOG.append(('body', '_cprot'))\n        return 3\n")
         if not any_body:
             w.append("    pass\n")
+        if ch.get("late_members"):
+            # members given to the class after it has been created (as class decorators and registries do)
+            w.append("def _late(self):\n    LOG.append(('body', 'late'))\n    return 4\ndef _late_get(self):\n    LOG.append(('body', 'lp.get'))\n    return 4\n"
+                     "Child.late = _late\nChild.lp = property(_late_get)\n")
     return "".join(w)
 
 
@@ -216,6 +237,10 @@ OPS = {
     "p.get": ("call", lambda o, ns: o.p, "p.get"),
     "p.set": ("pset", lambda o, ns: setattr(o, "p", 5), "p.set"),
     "p.del": ("call", lambda o, ns: delattr(o, "p"), "p.del"),
+    "pp.get": ("call", lambda o, ns: o.pp, "pp.get"),
+    "pp.set": ("pset", lambda o, ns: setattr(o, "pp", 5), "pp.set"),
+    "pp.del": ("call", lambda o, ns: delattr(o, "pp"), "pp.del"),
+    "del_tmp": ("call", lambda o, ns: (o.__dict__.__setitem__("tmp", 1), delattr(o, "tmp")), "__delattr__"),
     "call_priv": ("call", lambda o, ns: o.call_priv(), "call_priv"),
     "_prot": ("never", lambda o, ns: o._prot(), "_prot"),
     "__priv": ("never", lambda o, ns: o._Root__priv(), "__priv"),
@@ -226,17 +251,23 @@ OPS = {
     "read": ("never", lambda o, ns: o.v, None),
     "reinit_boom": ("boom", lambda o, ns: o.__init__(True), None),
     "sd": ("call", lambda o, ns: o.sd(1), "sd"),
+    "late": ("call", lambda o, ns: o.late(), "late"),
+    "lp.get": ("call", lambda o, ns: o.lp, "lp.get"),
     "extra": ("call", lambda o, ns: o.extra(), "extra"),
     "_cprot": ("never", lambda o, ns: o._cprot(), "_cprot"),
 }
 
 
 def ops_for(spec):
-    ops = ["pub", "__call__", "__bool__", "apub", "p.get", "p.set", "p.del", "call_priv", "_prot", "__priv", "cm", "sm", "repr", "setattr", "read", "sd"]
+    ops = ["pub", "__call__", "__bool__", "apub", "p.get", "p.set", "p.del", "call_priv", "_prot", "__priv", "cm", "sm", "repr", "setattr", "read", "sd", "pp.get", "pp.set", "pp.del"]
     if spec["style"] == "namedtuple":
-        ops = [o for o in ops if o not in ("setattr", "__bool__", "p.set", "p.del")]
+        ops = [o for o in ops if o not in ("setattr", "__bool__", "p.set", "p.del", "pp.set", "pp.del")]
+    if spec["style"] == "own_delattr":
+        ops += ["del_tmp"]
     if spec["child"] and spec["child"]["adds"]:
         ops += ["extra", "_cprot"]
+    if spec["child"] and spec["child"].get("late_members"):
+        ops += ["late", "lp.get"]
     if spec["style"] in ("plain", "slots", "getattribute") and not spec["child"]:
         ops += ["reinit_boom"]   # a constructor call on the existing object that fails in its body
     return ops
@@ -248,7 +279,7 @@ def specs(tier):
     inv_opts_t = inv_opts_q + [["C", "C"], ["C", "A"], ["S", "S"], ["S", "A"], ["A", "S"], ["A", "A"]]
     inv_opts = inv_opts_q if tier == "quick" else inv_opts_t
     for base in ("object", "DBC"):
-        for style in ("plain", "slots", "dataclass", "namedtuple", "no_init", "user_new", "getattribute", "aliased", "list_base", "exc_base"):
+        for style in ("plain", "slots", "dataclass", "namedtuple", "no_init", "user_new", "getattribute", "aliased", "list_base", "exc_base", "own_delattr"):
             if style == "namedtuple" and base == "DBC":
                 continue
             for invs in inv_opts:
@@ -278,6 +309,9 @@ def specs(tier):
                         if ctor in ("none", "first") and not overrides and style in ("plain", "no_init"):
                             out.append({"base": "DBC", "style": style, "invs": invs,
                                         "child": {"invs": cinvs, "ctor": ctor, "overrides": overrides, "adds": adds, "own_setattr": True}})
+                        if ctor in ("none", "first") and not overrides and style in ("plain", "no_init"):
+                            out.append({"base": "DBC", "style": style, "invs": invs,
+                                        "child": {"invs": cinvs, "ctor": ctor, "overrides": overrides, "adds": adds, "late_members": True}})
                         if ctor == "none" and style == "no_init":
                             # a plain (non-slots) dataclass: the constructor is generated and assigned AFTER the class has been created
                             out.append({"base": "DBC", "style": style, "invs": invs,
@@ -301,7 +335,7 @@ def feats(spec, op=None, seq=None):
     ch = spec["child"]
     return {"base": spec["base"], "style": spec["style"], "invs": "".join(spec["invs"]),
             "child": None if not ch else "{}|{}|{}{}{}".format("".join(ch["invs"]), ch["ctor"], "o" if ch["overrides"] else "-", "a" if ch["adds"] else "-",
-                                                              ("x" if ch.get("extends_prop") else "") + ("s" if ch.get("own_setattr") else "") + ("d" if ch.get("dc_slots") else "") + ("D" if ch.get("dc_plain") else "") + ("r" if ch.get("via_root") else "") + ("n" if ch.get("own_new") else "")),
+                                                              ("x" if ch.get("extends_prop") else "") + ("s" if ch.get("own_setattr") else "") + ("d" if ch.get("dc_slots") else "") + ("D" if ch.get("dc_plain") else "") + ("L" if ch.get("late_members") else "") + ("r" if ch.get("via_root") else "") + ("n" if ch.get("own_new") else "")),
             "child_invs": None if not ch else "".join(ch["invs"]), "ctor": None if not ch else ch["ctor"],
             "op": op, "first_op": seq[0] if seq else None,
             "has_setattr_inv": any(c in "SA" for c in spec["invs"] + (ch["invs"] if ch else [])),
